@@ -356,6 +356,9 @@ func (e *Env) binary(ex *ast.BinaryExpr, hint types.Type) Val {
 	boolT := types.Typ[types.Bool]
 	switch ex.Op {
 	case token.LAND:
+		if lv, isLive := e.liveCall(ex.X); isLive && !lv {
+			return Val{T: boolT, S: "false"} // "live(x) && P": P is not evaluated when x is not in scope on this path
+		}
 		l, r := e.eval(ex.X, boolT), e.eval(ex.Y, boolT)
 		return Val{T: boolT, S: and(l.S, r.S)}
 	case token.LOR:
@@ -516,6 +519,16 @@ func (e *Env) ident(id *ast.Ident, hint types.Type) Val {
 	_, obj := e.scopeLookup(id.Name)
 	if obj == nil {
 		obj = types.Universe.Lookup(id.Name)
+	}
+	if obj == nil && e.x != nil && e.useCells {
+		// a local declared further down in the loop body (exit-when / back-when clauses)
+		for _, a := range e.x.allocByPos {
+			if a.Comment == id.Name {
+				if cv, ok := e.st.cells[e.x.cellKey(a)]; ok && cv.S != "" {
+					return Val{T: a.Type().(*types.Pointer).Elem(), S: cv.S}
+				}
+			}
+		}
 	}
 	if obj == nil {
 		e.fail("unknown identifier %s in contract", id.Name)
@@ -736,6 +749,12 @@ func (e *Env) callExpr(ex *ast.CallExpr, hint types.Type) Val {
 				}
 			}
 			return Val{T: boolT, S: fmt.Sprintf("(%s (%s) %s)", q, strings.Join(binders, " "), inner)}
+		case "live":
+			lv, _ := e.liveCall(ex)
+			if lv {
+				return Val{T: boolT, S: "true"}
+			}
+			return Val{T: boolT, S: "false"}
 		case "old":
 			n := *e
 			n.st = e.old
@@ -1039,4 +1058,41 @@ func collectSelects(t string, out *[]string) {
 			collectSelects(p, out)
 		}
 	}
+}
+
+// liveCall: is ex the call live(v), and if so, does the local variable v have
+// a value on the current path?
+func (e *Env) liveCall(ex ast.Expr) (live bool, isLive bool) {
+	for {
+		p, ok := ex.(*ast.ParenExpr)
+		if !ok {
+			break
+		}
+		ex = p.X
+	}
+	ce, ok := ex.(*ast.CallExpr)
+	if !ok {
+		return false, false
+	}
+	id, ok := ce.Fun.(*ast.Ident)
+	if !ok || id.Name != "live" || len(ce.Args) != 1 {
+		return false, false
+	}
+	v, ok := ce.Args[0].(*ast.Ident)
+	if !ok {
+		return false, true
+	}
+	if e.x == nil {
+		return false, true
+	}
+	// any local of that name with a value in the current state
+	for pos, a := range e.x.allocByPos {
+		_ = pos
+		if a.Comment == v.Name {
+			if cv, ok := e.st.cells[e.x.cellKey(a)]; ok && (cv.S != "" || cv.Fn != nil) {
+				return true, true
+			}
+		}
+	}
+	return false, true
 }
